@@ -11,9 +11,9 @@ cannot overflow — DESIGN §5.7 / conf assumptions).
 Outcomes:  `ok r`   the function returned `r`;
            `panic`  an index expression `neighbors[&v]` / `back[&w]` failed;
            `err`    the *model's* loop fuel ran out (the Rust code has `loop`/`while`
-                    without a bound; fuel = a proven-in-theory bound: BFS pops every
-                    vertex at most once, every augmentation raises the flow value).
-                    Never observed; a driver reports it as a model disagreement.
+                    without a bound).  Proved impossible for every input
+                    (`Props/C19.lean: fuel_adequate`): BFS pops every vertex at most
+                    once, every augmentation raises the flow value by one.
 -/
 import DSymVerif.Model.Outcome
 
